@@ -395,4 +395,120 @@ theorem newFileSinkFromURL_matches_source (P : Par) (scheme : Bytes) (user : Lis
     obtain ⟨e, he⟩ := h2 hok'
     exact ⟨_, _, hfin _ _ he, by simp [hok']⟩
 
+/-- `newSink(rawURL)`: an absolute path bypasses URL parsing; a parse error opens nothing; an empty scheme means `file`;
+    the factory map is read under the registry's mutex; a missing scheme is `errSinkNotFound`; the factory is called
+    once, after the mutex was released -/
+theorem newSink_matches_source (P : Par) (raw : Bytes) (mu fac : Val) (ev : List Val)
+    (scheme : Bytes) (user : List Val) (fragment rawQuery path : Bytes) (rest : Val) (perr : List Val)
+    (hparse : P.parse (.bytes raw) = (urlV scheme user fragment rawQuery path rest, perr)) (fuel : Nat) :
+    ∃ res ev', run (X P) (fuel + 2) "newSink" [.bytes raw] [("ev", .list ev), ("mu", mu), ("factories", fac)] =
+        .done res [("ev", .list ev'), ("mu", mu), ("factories", fac)] ∧
+      (if P.isAbs (.bytes raw) then
+         res = [.list (pathSpec P raw ev).1.1, .list (pathSpec P raw ev).1.2] ∧ ev' = (pathSpec P raw ev).2
+       else if !perr.isEmpty then (∃ e, res = [.list [], .list [e]]) ∧ ev' = ev
+       else
+         let u' := urlV (if scheme.isEmpty then [102, 105, 108, 101] else scheme) user fragment rawQuery path rest
+         let sch : Val := .bytes (if scheme.isEmpty then [102, 105, 108, 101] else scheme)
+         if (P.lookup fac sch).2 then
+           res = [.list (P.factory (P.lookup fac sch).1 u').1, .list (P.factory (P.lookup fac sch).1 u').2] ∧
+           ev' = ev ++ [.list [TransOpen.nm "Mutex.Lock", mu], .list [TransOpen.nm "Mutex.Unlock", mu],
+                        .list [TransOpen.nm "SinkFactory.call", (P.lookup fac sch).1, u']]
+         else res = [.list [], errV "errSinkNotFound" [sch]] ∧
+           ev' = ev ++ [.list [TransOpen.nm "Mutex.Lock", mu], .list [TransOpen.nm "Mutex.Unlock", mu]]) := by
+  have hcall : ∀ σ : State, retK σ [.loc "l0", .loc "l1"] "newFileSinkFromPath"
+      (exec (X P) (fuel + 1) newFileSinkFromPath_body ⟨[("p0", .bytes raw)], ("ev", .list ev) :: [("mu", mu), ("factories", fac)]⟩) = _ :=
+    fun σ => retK_of_fin2 σ _ _ _ _ _ _ _ (newFileSinkFromPath_exec_matches_source P raw _ ev fuel)
+  have hfin : ∀ (res : List Val) (fl : Env),
+      (exec (X P) (fuel + 2) newSink_body ⟨[("p0", .bytes raw)], [("ev", .list ev), ("mu", mu), ("factories", fac)]⟩).fin =
+        some (res, fl) →
+      run (X P) (fuel + 2) "newSink" [.bytes raw] [("ev", .list ev), ("mu", mu), ("factories", fac)] = .done res fl :=
+    fun res fl h => run_of_fin (X P) _ _ Gen.TransOpen.newSink _ _ _ _ rfl rfl h
+  cases habs : P.isAbs (.bytes raw) with
+  | true =>
+    have h : (exec (X P) (fuel + 2) newSink_body ⟨[("p0", .bytes raw)], [("ev", .list ev), ("mu", mu), ("factories", fac)]⟩).fin =
+        some ([.list (pathSpec P raw ev).1.1, .list (pathSpec P raw ev).1.2], [("ev", .list ((pathSpec P raw ev).2)), ("mu", mu), ("factories", fac)]) := by
+      rw [exec_succ]
+      simp [newSink_body, habs, hcall]
+    exact ⟨_, _, hfin _ _ h, by simp [habs]⟩
+  | false =>
+    cases perr with
+    | cons e es =>
+      have hp : ¬ ((es.length : Int) + 1 = 0) := by omega
+      have h : (exec (X P) (fuel + 2) newSink_body ⟨[("p0", .bytes raw)], [("ev", .list ev), ("mu", mu), ("factories", fac)]⟩).fin =
+          some ([.list [], errV "fmt.Errorf" [.bytes [99, 97, 110, 39, 116, 32, 112, 97, 114, 115, 101, 32, 37, 113, 32, 97, 115, 32, 97, 32, 85, 82, 76, 58, 32, 37, 118], .bytes raw, .list (e :: es)]], [("ev", .list (ev)), ("mu", mu), ("factories", fac)]) := by
+        rw [exec_succ]
+        simp [newSink_body, habs, hparse, hp, errV]
+      exact ⟨_, _, hfin _ _ h, by simp [habs, errV]⟩
+    | nil =>
+      cases scheme with
+      | nil =>
+        cases hl : (P.lookup fac (.bytes [102, 105, 108, 101])).2 with
+        | true =>
+          have h : (exec (X P) (fuel + 2) newSink_body ⟨[("p0", .bytes raw)], [("ev", .list ev), ("mu", mu), ("factories", fac)]⟩).fin =
+              some ([.list (P.factory (P.lookup fac (.bytes [102, 105, 108, 101])).1 (urlV [102, 105, 108, 101] user fragment rawQuery path rest)).1, .list (P.factory (P.lookup fac (.bytes [102, 105, 108, 101])).1 (urlV [102, 105, 108, 101] user fragment rawQuery path rest)).2], [("ev", .list (ev ++ [.list [TransOpen.nm "Mutex.Lock", mu], .list [TransOpen.nm "Mutex.Unlock", mu], .list [TransOpen.nm "SinkFactory.call", (P.lookup fac (.bytes [102, 105, 108, 101])).1, urlV [102, 105, 108, 101] user fragment rawQuery path rest]])), ("mu", mu), ("factories", fac)]) := by
+            rw [exec_succ]
+            simp [newSink_body, habs, hparse, urlV, hl, nm_lock, nm_unlock, nm_factory]
+          exact ⟨_, _, hfin _ _ h, by simp [habs, hl]⟩
+        | false =>
+          have h : (exec (X P) (fuel + 2) newSink_body ⟨[("p0", .bytes raw)], [("ev", .list ev), ("mu", mu), ("factories", fac)]⟩).fin =
+              some ([.list [], errV "errSinkNotFound" [.bytes [102, 105, 108, 101]]], [("ev", .list (ev ++ [.list [TransOpen.nm "Mutex.Lock", mu], .list [TransOpen.nm "Mutex.Unlock", mu]])), ("mu", mu), ("factories", fac)]) := by
+            rw [exec_succ]
+            simp [newSink_body, habs, hparse, urlV, hl, nm_lock, nm_unlock, errV]
+          exact ⟨_, _, hfin _ _ h, by simp [habs, hl]⟩
+      | cons c cs =>
+        cases hl : (P.lookup fac (.bytes (c :: cs))).2 with
+        | true =>
+          have h : (exec (X P) (fuel + 2) newSink_body ⟨[("p0", .bytes raw)], [("ev", .list ev), ("mu", mu), ("factories", fac)]⟩).fin =
+              some ([.list (P.factory (P.lookup fac (.bytes (c :: cs))).1 (urlV (c :: cs) user fragment rawQuery path rest)).1, .list (P.factory (P.lookup fac (.bytes (c :: cs))).1 (urlV (c :: cs) user fragment rawQuery path rest)).2], [("ev", .list (ev ++ [.list [TransOpen.nm "Mutex.Lock", mu], .list [TransOpen.nm "Mutex.Unlock", mu], .list [TransOpen.nm "SinkFactory.call", (P.lookup fac (.bytes (c :: cs))).1, urlV (c :: cs) user fragment rawQuery path rest]])), ("mu", mu), ("factories", fac)]) := by
+            rw [exec_succ]
+            simp [newSink_body, habs, hparse, urlV, hl, nm_lock, nm_unlock, nm_factory]
+          exact ⟨_, _, hfin _ _ h, by simp [habs, hl]⟩
+        | false =>
+          have h : (exec (X P) (fuel + 2) newSink_body ⟨[("p0", .bytes raw)], [("ev", .list ev), ("mu", mu), ("factories", fac)]⟩).fin =
+              some ([.list [], errV "errSinkNotFound" [.bytes (c :: cs)]], [("ev", .list (ev ++ [.list [TransOpen.nm "Mutex.Lock", mu], .list [TransOpen.nm "Mutex.Unlock", mu]])), ("mu", mu), ("factories", fac)]) := by
+            rw [exec_succ]
+            simp [newSink_body, habs, hparse, urlV, hl, nm_lock, nm_unlock, errV]
+          exact ⟨_, _, hfin _ _ h, by simp [habs, hl]⟩
+
+/-- `redirectStdLogAt`: the level is validated FIRST; on an error the standard logger (flags, prefix, output) is exactly
+    as it was; otherwise flags and prefix are zeroed, the output is the zap writer, and the restore function handed back
+    has captured the ORIGINAL flags and prefix -/
+theorem redirectStdLogAt_matches_source (P : Par) (lg : Val) (level : Int) (flags : Int) (pref : Bytes) (out : Val)
+    (fuel : Nat) :
+    ∃ res fl, run (X P) (fuel + 1) "redirectStdLogAt" [lg, .int level]
+        [("std.flags", .int flags), ("std.prefix", .bytes pref), ("std.out", out)] = .done res fl ∧
+      (if P.levelOK level then
+         (∃ text lf, res = [.list [text, .int flags, .bytes pref], .list []] ∧
+           fl = [("std.flags", .int 0), ("std.prefix", .bytes []), ("std.out", .list [TransOpen.nm "loggerWriter", lf])])
+       else (∃ e, res = [.list [], .list [e]]) ∧
+         fl = [("std.flags", .int flags), ("std.prefix", .bytes pref), ("std.out", out)]) := by
+  have hfin : ∀ (res : List Val) (fl : Env),
+      (exec (X P) (fuel + 1) redirectStdLogAt_body ⟨[("p0", lg), ("p1", .int level)],
+        [("std.flags", .int flags), ("std.prefix", .bytes pref), ("std.out", out)]⟩).fin = some (res, fl) →
+      run (X P) (fuel + 1) "redirectStdLogAt" [lg, .int level]
+        [("std.flags", .int flags), ("std.prefix", .bytes pref), ("std.out", out)] = .done res fl :=
+    fun res fl h => run_of_fin (X P) _ _ Gen.TransOpen.redirectStdLogAt _ _ _ _ rfl rfl h
+  cases hok : P.levelOK level with
+  | true =>
+    have h : ∃ text lf, (exec (X P) (fuel + 1) redirectStdLogAt_body ⟨[("p0", lg), ("p1", .int level)],
+        [("std.flags", .int flags), ("std.prefix", .bytes pref), ("std.out", out)]⟩).fin =
+        some ([.list [text, .int flags, .bytes pref], .list []],
+          [("std.flags", .int 0), ("std.prefix", .bytes []), ("std.out", .list [TransOpen.nm "loggerWriter", lf])]) := by
+      generalize hE : (exec (X P) (fuel + 1) redirectStdLogAt_body ⟨[("p0", lg), ("p1", .int level)],
+        [("std.flags", .int flags), ("std.prefix", .bytes pref), ("std.out", out)]⟩).fin = E
+      rw [exec_succ] at hE
+      simp [redirectStdLogAt_body, hok] at hE
+      subst hE
+      exact ⟨_, _, rfl⟩
+    obtain ⟨text, lf, h⟩ := h
+    exact ⟨_, _, hfin _ _ h, by simp⟩
+  | false =>
+    have h : (exec (X P) (fuel + 1) redirectStdLogAt_body ⟨[("p0", lg), ("p1", .int level)],
+        [("std.flags", .int flags), ("std.prefix", .bytes pref), ("std.out", out)]⟩).fin =
+        some ([.list [], errV "levelToFunc" [.int level]],
+          [("std.flags", .int flags), ("std.prefix", .bytes pref), ("std.out", out)]) := by
+      rw [exec_succ]
+      simp [redirectStdLogAt_body, hok, errV]
+    exact ⟨_, _, hfin _ _ h, by simp [errV]⟩
+
 end ZapVerif.C19
